@@ -224,6 +224,46 @@ func flipOrSet(b []byte, lo, hi int, rng *rand.Rand) {
 	}
 }
 
+// literalFlip changes one bit of the block's payload such that the compressed stream still decodes to the stated
+// length and still parses into the stated number of well-formed entries - different ones. Only the checksum can
+// tell such a block from an intact one. Returns false when no such bit is found (then any payload damage is used).
+func literalFlip(img []byte, bo, be int, rng *rand.Rand) bool {
+	bh := &v2.BlockHeader{}
+	if bh.Deserialize(img[bo:bo+v2.BlockHeaderSize]) != nil {
+		return false
+	}
+	pay := img[bo+v2.BlockHeaderSize : be]
+	orig, err := v2.DecompressBlock(pay)
+	if err != nil {
+		return false
+	}
+	n := len(pay)
+	start := rng.Intn(n)
+	for k := 0; k < n; k++ {
+		pos := (start + k) % n
+		bit := byte(1) << rng.Intn(8)
+		pay[pos] ^= bit
+		out, err := v2.DecompressBlock(pay)
+		ok := err == nil && len(out) == int(bh.UncompressedSize) && !bytes.Equal(out, orig)
+		if ok {
+			off := 0
+			for i := 0; i < int(bh.EntryCount) && ok; i++ {
+				e := &v2.Entry{}
+				c, err := e.Deserialize(out[off:])
+				if err != nil {
+					ok = false
+				}
+				off += c
+			}
+		}
+		if ok {
+			return true
+		}
+		pay[pos] ^= bit
+	}
+	return false
+}
+
 // returns the new bytes and a truncation length (-1: none) so that cuts are applied after field damages
 func applyDamage(img []byte, lay *layout, s Shape, d Damage, rng *rand.Rand) ([]byte, int, string) {
 	le := binary.LittleEndian
@@ -306,10 +346,20 @@ func applyDamage(img []byte, lay *layout, s Shape, d Damage, rng *rand.Rand) ([]
 			le.PutUint16(img[bo()+8:bo()+10], more[rng.Intn(len(more))])
 		}
 	case "crc":
-		flipOrSet(img, bo()+10, bo()+14, rng)
+		switch d.V {
+		case "zero": // also the CRC-32 of the empty string
+			le.PutUint32(img[bo()+10:bo()+14], 0)
+		case "ones":
+			le.PutUint32(img[bo()+10:bo()+14], 0xFFFFFFFF)
+		default:
+			flipOrSet(img, bo()+10, bo()+14, rng)
+		}
 	case "flags":
 		flipOrSet(img, bo()+14, bo()+16, rng)
 	case "payload":
+		if d.V == "literal" && literalFlip(img, bo(), be(), rng) {
+			break
+		}
 		flipOrSet(img, bo()+16, be(), rng)
 	case "cutfh":
 		return img, rng.Intn(v2.FileHeaderSize), ""
